@@ -215,6 +215,8 @@ var clock struct {
 	now   time.Time
 	src   Chooser
 	reads int64
+	// timers set / fired at once under the simulator
+	timers, fired int64
 }
 
 // SetClock attaches a simulated clock starting at start; every read advances
@@ -239,13 +241,73 @@ func Now() time.Time {
 	return clock.now
 }
 
+// AfterFunc replaces time.AfterFunc.  Simulated time has no fixed relation to
+// the progress of the code that set the timer: under the simulator a timer
+// either fires at once - its callback becomes a task (scheduler running) or a
+// goroutine that is given 50 ms to finish before the caller goes on - or has
+// not fired by the time the operation is over.  Which of the two is drawn
+// from the run's tape.  The returned timer is a real one (so that the
+// library's variables keep their types); stopping it is harmless.
+//
+//go:norace
+func AfterFunc(d time.Duration, f func(), site int32) *time.Timer {
+	var src Chooser
+	switch {
+	case sched.on:
+		src = sched.src
+	case clock.on && clock.src != nil:
+		src = clock.src
+	default:
+		return time.AfterFunc(d, f)
+	}
+	clock.timers++
+	if src.Choose(2) == 0 {
+		return time.AfterFunc(1<<62, f) // never, as far as this run is concerned
+	}
+	clock.fired++
+	if sched.on {
+		Go(f)
+		Yield(site)
+	} else {
+		done := make(chan struct{})
+		go func() { defer close(done); f() }()
+		select {
+		case <-done:
+		case <-time.After(50 * time.Millisecond):
+		}
+	}
+	return time.AfterFunc(1<<62, func() {})
+}
+
+// TimerStats reports timers set under the simulator and how many fired at once.
+//
+//go:norace
+func TimerStats() (set, fired int64) { return clock.timers, clock.fired }
+
+// Sleep replaces time.Sleep: simulated time passes, real time does not.
+//
+//go:norace
+func Sleep(d time.Duration) {
+	switch {
+	case sched.on:
+		if clock.on {
+			clock.now = clock.now.Add(d)
+		}
+		Yield(-1)
+	case clock.on:
+		clock.now = clock.now.Add(d)
+	default:
+		time.Sleep(d)
+	}
+}
+
 func Since(t time.Time) time.Duration { return Now().Sub(t) }
 func Until(t time.Time) time.Duration { return t.Sub(Now()) }
 
 // ---------------------------------------------------------------------------
 // task scheduler
 
-const maxTasks = 64
+const maxTasks = 512
 
 var sched struct {
 	on       bool
@@ -260,6 +322,10 @@ var sched struct {
 	maxSteps int64
 	switches int64
 	contend  int64
+	chanOps  int64
+	parks    int64
+	parked   [maxTasks]bool // the task's goroutine is inside a real blocking operation
+	nparked  int
 	trace    uint64
 	aborted  bool
 	inLib    [maxTasks]bool // task has passed a library yield point since its last switch
@@ -273,7 +339,11 @@ var sched struct {
 // Result summarises one scheduled run.
 type Result struct {
 	Steps, Switches, Contentions, Overlaps int64
-	Trace                                  uint64
+	// Parks: blocking operations (channel, select, condition variable) carried
+	// out parked; Timers / TimersFired: timers set by the library and how many
+	// of them the simulator fired at once
+	Parks, Timers, TimersFired int64
+	Trace                      uint64
 	Aborted                                bool // step budget exceeded or every task blocked
 	Panics                                 []any
 	Tasks                                  int
@@ -285,12 +355,12 @@ func pickNext(me int) int {
 	// can still run (fewer context switches = simpler schedule)
 	var cand [maxTasks]int
 	k := 0
-	if me >= 0 && !sched.finished[me] {
+	if me >= 0 && !sched.finished[me] && !sched.parked[me] {
 		cand[k] = me
 		k++
 	}
 	for i := 0; i < sched.n; i++ {
-		if i != me && !sched.finished[i] {
+		if i != me && !sched.finished[i] && !sched.parked[i] {
 			cand[k] = i
 			k++
 		}
@@ -299,6 +369,66 @@ func pickNext(me int) int {
 		return -1
 	}
 	return cand[sched.src.Choose(k)]
+}
+
+// idleTurn: nobody holds the turn - every live task is parked in a real
+// blocking operation; the first one to come back takes it.
+const idleTurn = -3
+
+// settle lets goroutines that have come back from a blocking operation note
+// so before a scheduling decision is made (with one P, one Gosched runs every
+// runnable goroutine once).
+//
+//go:norace
+func settle() {
+	if sched.nparked > 0 {
+		// once is enough for a goroutine that the last operation woke (it is
+		// next in line); a few more for those woken earlier, whom the runtime's
+		// periodic look at its global queue may have made wait a round
+		for i := 0; i < 4; i++ {
+			runtime.Gosched()
+		}
+	}
+}
+
+// park: the current task is about to block for real (channel operation,
+// select, condition variable).  It gives the turn to another task first - a
+// goroutine parked inside the runtime while holding the turn would stop the
+// simulation - and gets it back in unpark, once the operation is over and the
+// schedule picks it again.  The blocking operation itself stays the real one,
+// with the synchronisation the race detector knows about.
+//
+//go:norace
+func park(site int32) int {
+	me := sched.cur
+	sched.parks++
+	sched.steps++
+	sched.parked[me] = true
+	sched.nparked++
+	sched.inLib[me] = true
+	next := pickNext(-1)
+	if next < 0 {
+		sched.cur = idleTurn
+		return me
+	}
+	sched.switches++
+	sched.trace = (sched.trace ^ uint64(uint32(me))<<40 ^ uint64(uint32(next))<<32 ^ uint64(uint32(site)) ^ 1<<63) * 1099511628211
+	sched.cur = next
+	return me
+}
+
+//go:norace
+func unpark(me int) {
+	sched.parked[me] = false
+	sched.nparked--
+	sched.chanOps++
+	for sched.cur != me {
+		if sched.cur == idleTurn {
+			sched.cur = me
+			break
+		}
+		runtime.Gosched()
+	}
 }
 
 //go:norace
@@ -345,6 +475,7 @@ func Yield(site int32) {
 	if sched.src.Choose(4) == 0 {
 		sched.quantum = 1 + sched.src.Choose(4)
 	}
+	settle()
 	switchTo(me, pickNext(me), site)
 }
 
@@ -357,22 +488,42 @@ func yieldBlocked(site int32) {
 	sched.contend++
 	sched.blocked[me] = true
 	// any other unfinished, unblocked task; otherwise any unfinished task
+	settle()
 	next := -1
 	k := 0
 	var cand [maxTasks]int
 	for i := 0; i < sched.n; i++ {
-		if i != me && !sched.finished[i] && !sched.blocked[i] {
+		if i != me && !sched.finished[i] && !sched.blocked[i] && !sched.parked[i] {
 			cand[k] = i
 			k++
 		}
 	}
 	if k == 0 {
 		for i := 0; i < sched.n; i++ {
-			if i != me && !sched.finished[i] {
+			if i != me && !sched.finished[i] && !sched.parked[i] {
 				cand[k] = i
 				k++
 			}
 		}
+	}
+	if k == 0 && sched.nparked > 0 {
+		// whoever holds what this task waits for is inside a blocking
+		// operation: wait for one of them to come back
+		sched.steps++
+		if sched.steps > sched.maxSteps {
+			sched.aborted = true
+			panic("simrt: no progress: step budget exceeded while every other task is blocked")
+		}
+		sched.cur = idleTurn
+		for sched.cur != me {
+			if sched.cur == idleTurn && sched.nparked == 0 {
+				sched.cur = me // nobody left to hand it back
+				break
+			}
+			runtime.Gosched()
+		}
+		sched.blocked[me] = false
+		return
 	}
 	if k == 0 {
 		// nobody else can run: the lock holder is gone -> deadlock
@@ -518,11 +669,14 @@ func taskDone(id int) {
 	sched.finished[id] = true
 	sched.inLib[id] = false
 	sched.live--
+	settle()
 	next := pickNext(-1)
 	if next >= 0 {
 		sched.switches++
 		sched.trace = (sched.trace ^ uint64(uint32(id))<<40 ^ uint64(uint32(next))<<32 ^ 0xffff) * 1099511628211
 		sched.cur = next
+	} else if sched.live > 0 {
+		sched.cur = idleTurn
 	} else {
 		sched.cur = -1
 	}
@@ -534,6 +688,7 @@ func taskDone(id int) {
 //
 //go:norace
 func Run(src Chooser, maxSteps int64, tasks []func()) Result {
+	parks0, timers0, fired0 := sched.parks, clock.timers, clock.fired
 	sched.on = true
 	sched.src = src
 	sched.n = len(tasks)
@@ -547,7 +702,9 @@ func Run(src Chooser, maxSteps int64, tasks []func()) Result {
 		sched.blocked[i] = false
 		sched.inLib[i] = false
 		sched.panics[i] = nil
+		sched.parked[i] = false
 	}
+	sched.nparked = 0
 	sched.quantum = 1 + src.Choose(64)
 	sched.cur = -2 // nobody yet
 	for i, f := range tasks {
@@ -555,11 +712,24 @@ func Run(src Chooser, maxSteps int64, tasks []func()) Result {
 	}
 	first := src.Choose(len(tasks))
 	sched.cur = first
+	var idleSince time.Time
 	for sched.live > 0 {
 		runtime.Gosched()
+		// every live task inside a blocking operation and none coming back: the
+		// library has deadlocked itself (goroutines of this run are abandoned)
+		if sched.cur == idleTurn {
+			if idleSince.IsZero() {
+				idleSince = time.Now()
+			} else if time.Since(idleSince) > 20*time.Second {
+				sched.aborted = true
+				break
+			}
+		} else {
+			idleSince = time.Time{}
+		}
 	}
 	sched.on = false
-	res := Result{Steps: sched.steps, Switches: sched.switches, Contentions: sched.contend, Overlaps: sched.overlap, Trace: sched.trace, Aborted: sched.aborted, Tasks: sched.n}
+	res := Result{Parks: sched.parks - parks0, Timers: clock.timers - timers0, TimersFired: clock.fired - fired0, Steps: sched.steps, Switches: sched.switches, Contentions: sched.contend, Overlaps: sched.overlap, Trace: sched.trace, Aborted: sched.aborted, Tasks: sched.n}
 	for i := 0; i < sched.n; i++ {
 		if sched.panics[i] != nil {
 			res.Panics = append(res.Panics, sched.panics[i])
@@ -660,6 +830,87 @@ func (w *WaitGroup) Wait() {
 
 //go:norace
 func schedOn() bool { return sched.on }
+
+// ---------------------------------------------------------------------------
+// channel seam.  A task that blocks inside a channel operation while it holds
+// the simulator's turn would stop the simulation, so an operation that cannot
+// complete at once is carried out *parked*: the task hands the turn on (a
+// scheduling decision from the tape like any other), blocks in the real
+// operation, and queues for the turn again when it comes back.  The operations
+// on the channel stay the real ones: the race detector sees exactly the
+// synchronisation the library has.
+
+// Recv replaces `<-ch`.
+func Recv[T any](ch <-chan T, site int32) T {
+	v, _ := Recv2(ch, site)
+	return v
+}
+
+// Recv2 replaces `v, ok := <-ch` (and drives `for v := range ch`).
+func Recv2[T any](ch <-chan T, site int32) (T, bool) {
+	if !schedOn() {
+		v, ok := <-ch
+		return v, ok
+	}
+	select {
+	case v, ok := <-ch:
+		chanOp()
+		return v, ok
+	default:
+	}
+	me := park(site)
+	v, ok := <-ch
+	unpark(me)
+	return v, ok
+}
+
+// Send replaces `ch <- v`.
+func Send[T any](ch chan<- T, v T, site int32) {
+	if !schedOn() {
+		ch <- v
+		return
+	}
+	select {
+	case ch <- v:
+		chanOp()
+		return
+	default:
+	}
+	me := park(site)
+	defer unpark(me) // also when the channel has been closed meanwhile (panic)
+	ch <- v
+}
+
+// Park / Unpark bracket a statement that may block in a way the simulator does
+// not model itself: a select statement without default clause, sync.Cond.Wait.
+func Park(site int32) int {
+	if !schedOn() {
+		return -1
+	}
+	return park(site)
+}
+
+// CondWait replaces c.Wait() on a *sync.Cond.
+func CondWait(c *sync.Cond, site int32) {
+	me := Park(site)
+	c.Wait()
+	Unpark(me)
+}
+
+func Unpark(me int) {
+	if me >= 0 {
+		unpark(me)
+	}
+}
+
+//go:norace
+func chanOp() { sched.chanOps++ }
+
+// ChanOps reports channel operations completed under the scheduler and how
+// many of them had to park.
+//
+//go:norace
+func ChanOps() (ops, parks int64) { return sched.chanOps, sched.parks }
 
 // simulated machine size reported to the library while tasks are scheduled
 // (the workers themselves run with GOMAXPROCS=1)
